@@ -66,3 +66,26 @@ Proof.
     assert (Hn : (Z.of_nat i <? 0)%Z = false) by (apply Z.ltb_ge; lia). rewrite Hn.
     rewrite Nat2Z.id. rewrite (sindex_snth _ _ _ Ei). rewrite (IH r eq_refl). reflexivity.
 Qed.
+
+(* rejection for lists: one unsupported entry anywhere makes the whole conversion an IndexError *)
+Lemma amint_chars_err_is_index m am e : amint_chars m am = inl e -> e = EIndex.
+Proof.
+  revert e. induction am as [|a t IH]; intros e H; cbn [amint_chars] in H; [discriminate H|].
+  destruct (a <? 0)%Z; [injection H as <-; reflexivity|].
+  destruct (snth (Z.to_nat a) m); [|injection H as <-; reflexivity].
+  destruct (amint_chars m t) as [e'|r]; cbn [bind ok] in H; [|discriminate H].
+  injection H as <-. apply IH. reflexivity.
+Qed.
+
+Lemma am_list_outside_lemma :
+  forall hij am, Exists (fun l => (l < 0 \/ Z.of_nat (String.length (amchar_map hij)) <= l)%Z) am ->
+    amint_to_char am hij false = inl EIndex.
+Proof.
+  intros hij am H. unfold amint_to_char. cbn [andb].
+  induction H as [a t Ha | a t Ht IH]; cbn [amint_chars].
+  - pose proof (amint_out_of_range hij a Ha) as H1. unfold amint_to_char in H1. cbn [andb amint_chars] in H1.
+    destruct (a <? 0)%Z; [reflexivity|].
+    destruct (snth (Z.to_nat a) (amchar_map hij)); [|reflexivity]. cbn [bind ok] in H1. discriminate H1.
+  - destruct (a <? 0)%Z; [reflexivity|].
+    destruct (snth (Z.to_nat a) (amchar_map hij)); [|reflexivity]. rewrite IH. reflexivity.
+Qed.
